@@ -68,10 +68,16 @@ type result struct {
 var cmdKey = tla.MakeString("cmd")
 var elemKey = tla.MakeString("elem")
 
+type knownVal struct {
+	v tla.Value
+	n int64
+}
+
 type env struct {
-	typ  string
-	ids  string
-	back map[string]int64 // tla value string -> element/replica number
+	typ   string
+	ids   string
+	back  map[string]int64 // tla value string -> element/replica number
+	known []knownVal
 }
 
 func (e *env) repID(r int64) tla.Value {
@@ -82,6 +88,7 @@ func (e *env) repID(r int64) tla.Value {
 		v = tla.MakeString(fmt.Sprintf("r%d", r))
 	}
 	e.back[v.String()] = r
+	e.known = append(e.known, knownVal{v, r})
 	return v
 }
 
@@ -92,19 +99,37 @@ func (e *env) elem(x int64) tla.Value {
 		v = tla.MakeNumber(int32(x))
 	case "tup":
 		v = tla.MakeTuple(tla.MakeNumber(int32(x)), tla.MakeString("x"))
+	case "rec":
+		v = tla.MakeRecord([]tla.RecordField{
+			{Key: tla.MakeString("id"), Value: tla.MakeNumber(int32(x))},
+			{Key: tla.MakeString("tag"), Value: tla.MakeString("e")},
+		})
+	case "nest": // a tuple holding a record with a set field, a tuple and a boolean
+		v = tla.MakeTuple(
+			tla.MakeRecord([]tla.RecordField{
+				{Key: tla.MakeString("ids"), Value: tla.MakeSet(tla.MakeNumber(int32(x)), tla.MakeNumber(int32(x+1)), tla.MakeString("s"))},
+				{Key: tla.MakeString("at"), Value: tla.MakeTuple(tla.MakeNumber(int32(x)), tla.MakeTuple())},
+			}),
+			tla.MakeBool(x%2 == 0))
 	default:
 		v = tla.MakeString(fmt.Sprintf("e%d", x))
 	}
 	e.back[v.String()] = x
+	e.known = append(e.known, knownVal{v, x})
 	return v
 }
 
+// num maps a tla.Value back to its number: by Equal (a value that went through gob need not print the same)
 func (e *env) num(v tla.Value) int64 {
-	n, ok := e.back[v.String()]
-	if !ok {
-		return -999999
+	if n, ok := e.back[v.String()]; ok {
+		return n
 	}
-	return n
+	for _, k := range e.known {
+		if k.v.Equal(v) {
+			return k.n
+		}
+	}
+	return -999999
 }
 
 func (e *env) initVal() resources.CRDTValue {
